@@ -45,11 +45,20 @@ EXPLANATION = (
     "share, so a shared offset table lets a share with a damaged header be read through another share's offsets); "
     "(12) = C06.8 / C06.9: every remote write behind WriteBucketProxy.put_*/close reaches the Deferred its caller gets with "
     "no handler replacing a failure, and callRemote('close') is sent only from a success callback of the final flush, so a "
-    "repaired share is counted (clause 6) only when all of it was acknowledged. "
+    "repaired share is counted (clause 6) only when all of it was acknowledged; "
+    "(13) the function that stores Repairer._encodingparams is used only as the success callback of a Deferred whose every "
+    "reaching definition is self._filenode.get_segment_size(), with no registration in between that can substitute another "
+    "value (an errback's fallback, a clamping callback) and no direct call; the segment-size argument is stored without being "
+    "re-bound on any path; nothing else binds _encodingparams or re-binds _filenode, no subclass overrides the facade; "
+    "(14) the Encoder takes k, N and the segment size only from the slots of the tuple that "
+    "<its uploadable>.get_all_encoding_parameters() answered (every value its _got_all_encoding_parameters can be fired with), "
+    "the size and storage index only from get_size() / get_storage_index() of the same uploadable, binds them nowhere else, and "
+    "CHKUploader hands the uploadable it was started with (the Repairer) to the Encoder. "
     "Undecided: contents of repaired shares, hash/codec algebra, server behaviour between check and repair, "
     "that CHKUploader leaves existing shares alone (C22).")
 TECHNIQUE = ("static analysis: CFG gate/dominance rules, Deferred-chain order and delivery, who-may-call sweeps, tuple/keyword "
-             "agreement tables, origin of in-place mutated instance state")
+             "agreement tables, origin of in-place mutated instance state, reaching definitions of a Deferred and the values "
+             "its callbacks can be fired with")
 
 CK = "immutable.checker"
 VEUP = CK + ":ValidatedExtendedURIProxy"
@@ -482,6 +491,139 @@ class InstanceState:
             if gn is None or not self.protected(g, gn, attr, depth + 1):
                 return False
         return True
+
+
+# ------------------------------------------ what a Deferred callback is fired with (C45.13 / C45.14)
+_REG_ATTRS = {"addCallback": "cb", "addErrback": "eb", "addBoth": "both", "addCallbacks": "pair"}
+
+
+def _reg_base(call):
+    """x.addCallback(a).addErrback(b): (x, [registration calls that precede `call` in the same chain])."""
+    chain = []
+    cur = call.func.value
+    while isinstance(cur, ast.Call) and isinstance(cur.func, ast.Attribute) and cur.func.attr in _REG_ATTRS:
+        chain.append(cur)
+        cur = cur.func.value
+    chain.reverse()
+    return cur, chain
+
+
+def _cb_values(idx, parent, target):
+    """[(text, fn, locnode)] a callback may hand on; text None = its argument, unchanged."""
+    if target is None:
+        return [(None, parent, None)]
+    if isinstance(target, ast.Lambda):
+        ps = [a.arg for a in target.args.args]
+        if isinstance(target.body, ast.Name) and ps and target.body.id == ps[0]:
+            return [(None, parent, target)]
+        shadow = set(ps) & (set(all_defs(parent)) | set(parent.params))
+        t = norm_plain(target.body) if shadow else _closure_norm(parent).norm(target.body)
+        return [(t, parent, target)]
+    f = _cb_func(idx, parent, target)
+    if f is None:
+        return [("<%s>" % src(parent, target), parent, target)]
+    fp = first_positional_params(f)
+    fnm = FlowNorm(f)
+    out = []
+    for n in f.cfg().find(is_return):
+        if n.ast.value is None:
+            out.append(("None", f, n.ast))
+            continue
+        rd = fnm.rd.get(n.id, {})
+        v = fnm.resolve(n, n.ast.value)
+        if isinstance(v, ast.Name) and fp and v.id == fp[0] and rd.get(v.id) == frozenset([-1]):
+            out.append((None, f, n.ast))
+        elif f.parent is not None:
+            out.append((_closure_norm(f).norm(n.ast.value), f, n.ast))    # closure variables of the enclosing function(s)
+        else:
+            out.append((fnm.norm(n, n.ast.value), f, n.ast))
+    if find_path_avoiding(f.cfg(), lambda n: n.kind == "exit", gate_node=is_return):
+        out.append(("None", f, None))
+    return out
+
+
+def _delivered(idx, fn, reg):
+    """[(text, fn, locnode)]: every success value (or Deferred expression) the callback registered by `reg` in `fn` can be
+    fired with - per definition of the Deferred variable that reaches the registration, through the registrations that may
+    lie between that definition and `reg`.  A registration replaces what came before only when it is a success callback
+    that lies on every path and never hands its argument on."""
+    cfg = fn.cfg()
+    fnm = FlowNorm(fn)
+    rnode = _node_of(fn, reg.call)
+    base, inner = _reg_base(reg.call)
+    regs = _regs(fn)
+
+    def apply(cur, x, must):
+        res = _cb_values(idx, fn, x.target)
+        thru = any(t is None for (t, _f, _l) in res)
+        new = [y for y in res if y[0] is not None]
+        kind = x.kind
+        if kind == "eb":
+            return cur + new
+        if kind == "pair" and x.errtarget is not None:
+            extra = [y for y in _cb_values(idx, fn, x.errtarget) if y[0] is not None]
+        else:
+            extra = []
+        if must and not thru:
+            return new + extra
+        return cur + new + extra
+
+    def base_of(v):
+        while isinstance(v, ast.Call) and isinstance(v.func, ast.Attribute) and v.func.attr in _REG_ATTRS:
+            v = v.func.value
+        return v
+    dv = attr_path(base)
+    if dv is None or isinstance(base, ast.Call):
+        cur = [(fnm.norm(rnode, base), fn, base)]
+        for x in regs:
+            if any(x.call is c for c in inner):
+                cur = apply(cur, x, True)
+        return cur
+    if "." in dv:
+        return [("<the Deferred kept in %s>" % dv, fn, reg.call)]
+    defs = fnm.rd.get(rnode.id, {}).get(dv)
+    if not defs:
+        return [("<%s, unbound>" % dv, fn, reg.call)]
+    out = []
+    for did in sorted(defs):
+        if did < 0:
+            out.append(("<the argument %s>" % dv, fn, None))
+            continue
+        dn = cfg.nodes[did]
+        v = assign_value(dn, dv)
+        if v is None:
+            out.append(("<%s>" % src(fn, dn.ast), fn, dn.ast))
+            continue
+        cur = [(fnm.norm(dn, base_of(v)), fn, dn.ast)]
+        others = {m.id for m in cfg.nodes if dv in node_stores(m) and m is not dn}
+        for x in regs:
+            if x.call is reg.call or x.recv != dv:
+                continue
+            xn = _node_of(fn, x.call)
+            if xn is rnode:
+                if any(x.call is c for c in inner):
+                    cur = apply(cur, x, True)
+                continue
+            if xn is dn:
+                cur = apply(cur, x, True)         # d = f().addCallback(x)
+                continue
+
+            def tr(n, lab, nxt, st, _xn=xn, _dn=dn):
+                if lab == "exc" or (n.id in others):
+                    return None
+                return True if (st or n is _xn) else False
+            visited, _p = explore(cfg, False, tr, start=dn)
+            if (rnode.id, True) not in visited:
+                continue                          # never between this definition and the registration
+            cur = apply(cur, x, (rnode.id, False) not in visited)
+        out.extend(cur)
+    return out
+
+
+def _name_refs(fn, name):
+    """Loads of the plain name `name` in fn (lambda bodies included, nested defs excluded)."""
+    return [x for x in func_own_nodes(fn, into_lambda=True) if isinstance(x, ast.Name) and x.id == name
+            and isinstance(x.ctx, ast.Load) and _inner(fn, x)]
 
 
 def run(ctx: Context):
@@ -1273,10 +1415,14 @@ def run(ctx: Context):
         # Repairer
         rs = idx.func(REP + ".start")
         sregs = _regs(rs)
-        seg = [x for x in sregs if x.kind == "cb"]
-        srcv = {attr_path(t) for n in _own(rs) if isinstance(n, ast.Assign) and isinstance(n.value, ast.Call)
-                and call_name(n.value) == "self._filenode.get_segment_size" for t in n.targets}
-        if len(seg) != 1 or seg[0].recv not in srcv:
+        # the callback that fixes the parameters (what it is fired with, on every path, is C45.13)
+        def _fixes_params(x):
+            f = _cb_func(idx, rs, x.target)
+            return f is not None and any("self._encodingparams" in node_stores(n) for n in f.cfg().nodes)
+        seg = [x for x in sregs if x.kind == "cb" and _fixes_params(x)]
+        if not [c for c in _calls(rs) if call_name(c) == "self._filenode.get_segment_size"]:
+            raise AnchorVanished("Repairer.start: self._filenode.get_segment_size()")
+        if len(seg) != 1:
             raise AnchorVanished("Repairer.start: callback on self._filenode.get_segment_size()")
         gs = _cb_func(idx, rs, seg[0].target)
         segp = first_positional_params(gs)[0]
@@ -1301,8 +1447,17 @@ def run(ctx: Context):
         for n in gscfg.find(is_return):
             r.require(n.ast.value is not None and re.match(r"^(\w+\.)*CHKUploader\(.*\)\.start\(self\)$", gsn.norm(n, n.ast.value)) is not None,
                       gs, gs.loc(n.ast), "returns %s, not the upload's Deferred" % src(gs, n.ast.value))
+        def _is_repair_deferred(v):
+            if seg[0].recv and attr_path(v) == seg[0].recv:
+                return True
+            while isinstance(v, ast.Call) and isinstance(v.func, ast.Attribute) and v.func.attr in _REG_ATTRS:
+                if v is seg[0].call:
+                    return True                   # return <..>.addCallback(_got_segsize)<.addX(..)>
+                v = v.func.value
+            return False
         for n in rs.cfg().find(is_return):
-            r.require(attr_path(n.ast.value) == seg[0].recv, rs, rs.loc(n.ast), "Repairer.start returns %s" % src(rs, n.ast.value))
+            r.require(n.ast.value is not None and _is_repair_deferred(n.ast.value), rs, rs.loc(n.ast),
+                      "Repairer.start returns %s" % src(rs, n.ast.value))
         ge = idx.func(REP + ".get_all_encoding_parameters")
         for n in ge.cfg().find(is_return):
             r.require(norm_plain(n.ast.value) in ("defer.succeed(self._encodingparams)",), ge, ge.loc(n.ast), "returns %s" % src(ge, n.ast.value))
@@ -1815,3 +1970,217 @@ def run(ctx: Context):
     # hands the outcome of every remote write to the Encoder and finalises the share after the last write was acknowledged:
     # exactly C06.8 / C06.9, adopted here (C06 includes nothing, so there is no cycle).
     ctx.include("C06", ["C06.8", "C06.9"], "C45.12")
+
+    # -- 13. where the repairer's encoding parameters come from, on every path ---
+    # C45.7 anchors the shape of the parameter tuple and C45.9 the accessor behind get_segment_size(); this clause closes the
+    # path between them: the callback that fixes the tuple must be fired only with the accessor's answer.
+    with ctx.rule("C45.13", "R1/E7", "Repairer: the function that stores self._encodingparams is reached only as the success "
+                  "callback of self._filenode.get_segment_size() (every definition of that Deferred, nothing in between that "
+                  "substitutes another value, no direct call), its segment-size argument is stored unchanged, and nothing "
+                  "else binds _encodingparams / _filenode", expected=4) as r:
+        rep_cls = idx.cls(REP)
+        cg = get_callgraph(idx)
+        SEG_OK = re.compile(r"^(self\._filenode\.get_segment_size\(\)|(\w+\.)*maybeDeferred\(self\._filenode\.get_segment_size\))$")
+
+        def in_repairer(f):
+            return f.cls is not None and (f.cls is rep_cls or rep_cls in f.cls.mro())
+        setters = []
+        for (f, nd) in cg.attr_stores("_encodingparams"):
+            if f.module.name.startswith(OFFLINE_TOOLS):
+                continue
+            if in_repairer(f) and attr_path(nd) == "self._encodingparams":
+                vals = [assign_value(n, "self._encodingparams") for n in f.cfg().nodes if "self._encodingparams" in node_stores(n)]
+                if vals and all(v is not None and isinstance(v, ast.Constant) and v.value is None for v in vals):
+                    continue                      # `= None` placeholder: nothing can be encoded with it
+                if f not in setters:
+                    setters.append(f)
+            elif f.module.name.startswith("allmydata.immutable"):
+                r.violation(f, f.loc(nd), "%s sets the encoding parameters of a repairer from outside (%s)" % (short(f), src(f, nd)))
+        if not setters:
+            raise AnchorVanished("nothing stores Repairer._encodingparams")
+        for g in setters:
+            r.site(g, None, "encoding parameters fixed here")
+            gp = first_positional_params(g)
+            host = g.parent
+            if host is None or not gp:
+                r.violation(g, g.loc(), "%s fixes the repairer's encoding parameters but is not a callback of "
+                            "self._filenode.get_segment_size(): the segment size cannot be the one of the validated UEB" % short(g))
+                continue
+            segp = gp[0]
+            gnm = FlowNorm(g)
+            for n in g.cfg().nodes:
+                v = assign_value(n, "self._encodingparams")
+                if v is None:
+                    continue
+                v = gnm.resolve(n, v)
+                if not isinstance(v, ast.Tuple) or len(v.elts) != 4:
+                    continue                      # C45.7 reports the shape
+                e3 = gnm.resolve(n, v.elts[3])
+                if isinstance(e3, ast.Name) and e3.id == segp:
+                    ds = gnm.rd.get(n.id, {}).get(segp)
+                    r.require(ds == frozenset([-1]), g, g.loc(n.ast), "the segment size stored in %s is %s after it was re-bound "
+                              "inside %s on some path: no longer (only) the value the file node reported" % (
+                                  src(g, n.ast), segp, short(g)))
+            # every use of the callback
+            refs = _name_refs(host, g.name)
+            regs = [x for x in _regs(host) if isinstance(x.target, ast.Name) and x.target.id == g.name]
+            if not regs:
+                raise AnchorVanished("%s is not registered as a callback in %s" % (g.name, host.qual))
+            for nd in refs:
+                mine = [x for x in regs if x.target is nd and x.kind == "cb"]
+                if not mine:
+                    r.violation(host, host.loc(nd), "%s uses %s other than as the success callback of "
+                                "self._filenode.get_segment_size(): the repairer's segment size would be whatever it is "
+                                "called with" % (short(host), g.name))
+            p = host.parent
+            while p is not None:
+                for nd in _name_refs(p, g.name):
+                    r.violation(p, p.loc(nd), "%s uses %s" % (short(p), g.name))
+                p = p.parent
+            for x in regs:
+                if x.kind != "cb":
+                    continue
+                r.site(host, x.call, "segment size <- get_segment_size()")
+                r.count(len(host.cfg().nodes))
+                for (t, f_, l_) in _delivered(idx, host, x):
+                    if SEG_OK.match(t):
+                        continue
+                    r.violation(f_, f_.loc(l_) if l_ is not None else f_.loc(), "%s (which fixes the segment size the file is "
+                                "re-encoded with) can be fired with %s instead of the answer of "
+                                "self._filenode.get_segment_size(): shares re-encoded with a locally chosen segment size have "
+                                "another UEB and hash trees and do not verify under the file's cap" % (g.name, t))
+        # the file node the parameters are read from is the constructor's, for the repairer's whole life
+        init = idx.func(REP + ".__init__")
+        r.site(init, None, "self._filenode bound once")
+        for (f, nd) in cg.attr_stores("_filenode"):
+            if in_repairer(f) and attr_path(nd) == "self._filenode" and not (f is init or (f.name == "__init__" and f.parent is None)):
+                r.violation(f, f.loc(nd), "%s re-binds the repairer's file node" % short(f))
+        # the facade answers from that tuple only (C45.7 checks the value; here: no second definition in a subclass)
+        r.site(rep_cls.qual, None, "subclasses")
+        for sub in idx.subclasses(rep_cls):
+            for nm in ("start", "get_all_encoding_parameters", "get_size", "get_storage_index", "read_encrypted"):
+                if nm in sub.methods and not sub.module.name.startswith(OFFLINE_TOOLS):
+                    m = sub.methods[nm]
+                    r.violation(m, m.loc(), "%s overrides Repairer.%s: the encoding inputs checked on Repairer are not the "
+                                "ones this repairer uses" % (sub.name, nm))
+
+    # -- 14. the Encoder re-encodes with exactly what its uploadable (the Repairer) answered ---
+    with ctx.rule("C45.14", "R1/E7", "Encoder intake: _got_all_encoding_parameters is fired only with "
+                  "<uploadable>.get_all_encoding_parameters(), file_size / _storage_index only with get_size() / "
+                  "get_storage_index() of the same uploadable; k, N, segment size are stored only there, from the tuple's "
+                  "slots; CHKUploader hands the uploadable it was started with to the Encoder", expected=6) as r:
+        ENC = "immutable.encode:Encoder"
+        enc_cls = idx.cls(ENC)
+        se = idx.func(ENC + ".set_encrypted_uploadable")
+        ge = idx.func(ENC + "._got_all_encoding_parameters")
+        cg = get_callgraph(idx)
+        up = first_positional_params(se)
+        if not up:
+            raise AnchorVanished("set_encrypted_uploadable(uploadable)")
+        U = r"(IEncryptedUploadable\(%s\)|%s|self\._uploadable)" % (re.escape(up[0]), re.escape(up[0]))
+        senm = FlowNorm(se)
+        for n in se.cfg().nodes:
+            if "self._uploadable" in node_stores(n):
+                v = stored_value(n, "self._uploadable")
+                if v is None and isinstance(n.ast, ast.Assign):
+                    v = n.ast.value
+                t = senm.norm(n, v) if v is not None else "?"
+                r.require(re.match(r"^(IEncryptedUploadable\(%s\)|%s)$" % (re.escape(up[0]), re.escape(up[0])), t) is not None,
+                          se, se.loc(n.ast), "self._uploadable is %s, not the uploadable the encoder was given" % t)
+
+        def in_enc(f):
+            return f.cls is not None and (f.cls is enc_cls or enc_cls in f.cls.mro())
+
+        def fired_only_with(host, regs, what, rx, why):
+            for x in regs:
+                r.site(host, x.call, what)
+                r.count(len(host.cfg().nodes))
+                r.require(x.kind == "cb", host, host.loc(x.call), "%s is registered as %s" % (x.target_name(), x.kind))
+                for (t, f_, l_) in _delivered(idx, host, x):
+                    if rx.match(t):
+                        continue
+                    r.violation(f_, f_.loc(l_) if l_ is not None else f_.loc(), "%s can be fired with %s instead of %s" % (
+                        x.target_name(), t, why))
+        # (i) the parameter tuple
+        name = ge.name
+        uses = [(cs.fn, cs.call.func) for cs in cg.calls_named(name)] + list(cg.refs_named(name))
+        regs = [x for x in _regs(se) if attr_path(x.target) == "self." + name]
+        if not regs:
+            raise AnchorVanished("set_encrypted_uploadable no longer chains self.%s" % name)
+        for (f, nd) in uses:
+            if f.module.name.startswith(OFFLINE_TOOLS):
+                continue
+            recv = attr_path(nd.value) if isinstance(nd, ast.Attribute) else None
+            if recv == "self" and not in_enc(f):
+                continue                          # another class's method of the same name (AssistedUploader)
+            if recv != "self" and f.module is not se.module and not isinstance(nd, ast.Attribute):
+                continue                          # an unrelated plain name
+            if not any(x.target is nd for x in regs):
+                r.violation(f, f.loc(nd), "%s hands encoding parameters to the Encoder (%s) outside the chain that asks the "
+                            "uploadable for them" % (short(f), src(f, nd)))
+        fired_only_with(se, regs, "parameters <- uploadable.get_all_encoding_parameters()",
+                        re.compile(r"^%s\.get_all_encoding_parameters\(\)$" % U),
+                        "the answer of the uploadable's get_all_encoding_parameters() (for a repair: k, N of the verify cap and "
+                        "the file's real segment size)")
+        # (ii) size and storage index
+        for attr, getter in (("self.file_size", "get_size"), ("self._storage_index", "get_storage_index")):
+            holders = []
+            for (f, nd) in cg.attr_stores(attr[5:]):
+                if in_enc(f) and attr_path(nd) == attr and not (f.name == "__init__" and f.parent is None) and f not in holders:
+                    holders.append(f)
+            if not holders:
+                raise AnchorVanished("Encoder no longer stores %s" % attr)
+            for h_ in holders:
+                hp = first_positional_params(h_)
+                if h_.parent is not se or not hp:
+                    r.violation(h_, h_.loc(), "%s sets the encoder's %s outside set_encrypted_uploadable's chain" % (short(h_), attr[5:]))
+                    continue
+                hnm = FlowNorm(h_)
+                for n in h_.cfg().nodes:
+                    v = assign_value(n, attr)
+                    if v is None:
+                        continue
+                    e = hnm.resolve(n, v)
+                    ok = isinstance(e, ast.Name) and e.id == hp[0] and hnm.rd.get(n.id, {}).get(hp[0]) == frozenset([-1])
+                    r.require(ok, h_, h_.loc(n.ast), "%s = %s: not (only) what the uploadable's %s() answered" % (attr, hnm.norm(n, v), getter))
+                hregs = [x for x in _regs(se) if isinstance(x.target, ast.Name) and x.target.id == h_.name]
+                if not hregs:
+                    raise AnchorVanished("%s is not a callback in set_encrypted_uploadable" % h_.name)
+                for nd in _name_refs(se, h_.name):
+                    r.require(any(x.target is nd for x in hregs), se, se.loc(nd), "%s is used outside the uploadable's chain" % h_.name)
+                fired_only_with(se, hregs, "%s <- uploadable.%s()" % (attr[5:], getter),
+                                re.compile(r"^%s\.%s\(\)$" % (U, getter)), "the uploadable's %s()" % getter)
+        # (iii) the slots
+        gnm = FlowNorm(ge)
+        p0 = first_positional_params(ge)[0]
+        slots = {"self.required_shares": 0, "self.num_shares": 2, "self.segment_size": 3}
+        seen = set()
+        for n in ge.cfg().nodes:
+            for path in set(slots) & node_stores(n):
+                v = stored_value(n, path)
+                got = gnm.norm(n, v) if v is not None else None
+                seen.add(path)
+                r.require(got == "%s[%d]" % (p0, slots[path]), ge, ge.loc(n.ast), "%s is set to %s, not to element %d of the "
+                          "uploadable's parameter tuple" % (path, got, slots[path]))
+        if seen != set(slots):
+            raise AnchorVanished("Encoder._got_all_encoding_parameters no longer stores %s" % sorted(set(slots) - seen))
+        r.site(ge, None, "k, N, segment size <- tuple slots")
+        for path in slots:
+            for (f, nd) in cg.attr_stores(path[5:]):
+                if in_enc(f) and attr_path(nd) == path and f is not ge and not (f.name == "__init__" and f.parent is None):
+                    r.violation(f, f.loc(nd), "%s re-binds the encoder's %s after the uploadable's parameters were taken" % (
+                        short(f), path[5:]))
+        # (iv) CHKUploader: the uploadable it is started with is the one the Encoder asks
+        CU = "immutable.upload:CHKUploader"
+        for meth, callee in (("start", "start_encrypted"), ("start_encrypted", "set_encrypted_uploadable")):
+            m = idx.func(CU + "." + meth)
+            mp = first_positional_params(m)
+            mnm = FlowNorm(m)
+            cs_ = [(n, c) for n in m.cfg().nodes for c in node_calls(n) if call_tail(c) == callee]
+            if len(cs_) != 1 or not mp:
+                raise AnchorVanished("CHKUploader.%s: one call of %s" % (meth, callee))
+            (n, c) = cs_[0]
+            r.site(m, c, "uploadable handed on")
+            t = mnm.norm(n, c.args[0]) if c.args else "?"
+            r.require(re.match(r"^(IEncryptedUploadable\(%s\)|%s)$" % (re.escape(mp[0]), re.escape(mp[0])), t) is not None, m, m.loc(c),
+                      "%s is given %s, not the uploadable CHKUploader.%s was started with" % (callee, t, meth))
